@@ -64,8 +64,8 @@ def isp(chk, prog):
     m, fn = prog.func("initial_style_bind", ISP)
     bind = prog.nested(fn, "bind")
     wrapped = prog.nested(bind, "wrapped")
-    impl = prog.nested(wrapped, "_impl")
     ev = Evaluator(prog)
+    impl = None  # the function handed to bind as impl=: a local def, or the product of a factory - read off the bind call
     where = f"{m.rel}:{fn.lineno}"
     r = ev.eval_fn(wrapped, m, env0={"prim": P("prim"), "params": P("params"), "f": P("f")})
     binds = [x for x in subterms(r.ret) if is_mcall(x, "bind") and x[1][1] == P("prim")]
@@ -79,7 +79,8 @@ def isp(chk, prog):
         okc = tuple(b[2]) == (("star", lit), ("star", flat_args))
         kw = dict(b[3])
         okn = kw.get("num_consts") == ("call", G("len"), (lit,), ())
-        oki = ev.closure_of(kw.get("impl")) is not None and ev.closure_of(kw.get("impl")).node is impl
+        oki = ev.closure_of(kw.get("impl")) is not None and isinstance(ev.closure_of(kw.get("impl")).node, (ast.FunctionDef, ast.Lambda))
+        impl = ev.closure_of(kw["impl"]) if oki else None
         chk.require(okc and okn and oki, "ISP-CONSTS", "initial_style_bind/bind", "literals first, then the flat arguments; num_consts = number of literals", derived=show(b)[:300],
                     expected="prim.bind(*chain(jaxpr.literals, flat_args), impl=_impl, num_consts=len(jaxpr.literals), in_tree=..., out_tree=...)", where=where)
         chk.require(kw.get("in_tree") == mk_proj(mk_proj(st, 1), 1) and kw.get("out_tree") == mk_proj(mk_proj(st, 1), 2), "ISP-CONSTS", "initial_style_bind/trees", "in_tree / out_tree from the same staging", derived=f"in_tree={show(kw.get('in_tree'))[:80]}", expected="the trees returned by stage(f)", where=where)
@@ -88,10 +89,11 @@ def isp(chk, prog):
     else:
         chk.violation("ISP-CONSTS", "initial_style_bind/bind", "prim.bind call", derived=f"{len(binds)} bind calls", expected="one", where=where)
     # _impl is evaluated in the environment it closes over (so the staged jaxpr it evaluates is a term, whatever name carries it)
-    clo = next((ev.closures[k] for k in ev.closures if ev.closures[k].node is impl), None)
+    clo = impl
     if clo is None:
-        raise AnalysisError("initial_style_bind: _impl closure not found")
-    ri = Evaluator(prog).eval_fn(impl, m, env0=dict(clo.env))
+        raise AnalysisError("initial_style_bind: no function is handed to prim.bind as impl=")
+    impl = clo.node
+    ri = Evaluator(prog).eval_fn(impl, clo.module, env0=dict(clo.env))
     ops = P(impl.args.vararg.arg) if impl.args.vararg else P("args")
     n_ = ("index", P(impl.args.kwarg.arg) if impl.args.kwarg else P("params"), C("num_consts"))
     want = ("call", G("jax.core.eval_jaxpr"), (("attr", jaxpr, "jaxpr"), ("index", ops, ("sliceobj", C(None), n_, C(None))), ("star", ("index", ops, ("sliceobj", n_, C(None), C(None))))), ())
